@@ -6,7 +6,7 @@ import re
 from collections import defaultdict, deque
 
 MAX_DEPTH = 10
-MAX_PNODES = 400000
+MAX_PNODES = 1200000
 
 
 class Unresolved(Exception):
@@ -958,8 +958,8 @@ class Product:
                     if src is None:
                         src = self.g.slot_of(inst, a["p"])
                     if src is not None and src not in tags and _is_tagged_ty(dty):
+                        # (the viewed place itself gets its tag only when the view is tested: see _resolve_same_origin)
                         tag = ("?", ("place", src, n))
-                        tags[src] = tag
             elif _OK_OR.search(p):
                 if a0:
                     tag = ({"Some": "Ok", "None": "Err", "?": "?"}.get(a0[0]), a0[1])
@@ -1064,12 +1064,15 @@ class Product:
                     seen.add(qi)
                     work.append(qi)
 
-    @staticmethod
-    def _resolve_same_origin(tags, origin, variant):
+    def _resolve_same_origin(self, tags, origin, variant):
         """slots that hold the same not-yet-known value (same origin: a place and its as_ref() view) learn the variant together"""
         for s2, v2 in list(tags.items()):
             if v2 is not None and v2[0] == "?" and v2[1] == origin:
                 tags[s2] = (variant, origin)
+        if isinstance(origin, tuple) and len(origin) == 3 and origin[0] == "place" and origin[1] not in tags \
+                and self.g.term(origin[2])["k"] == "call":
+            # origin made at a view (`x.as_ref()`): what was learned about the view holds for the viewed place (the borrow is alive)
+            tags[origin[1]] = (variant, origin)
 
     def _prune(self, m, tags):
         """drop tags of locals of m's instance that are dead on entry to block m (and not address-taken)."""
